@@ -544,7 +544,8 @@ def run(ctx, explain=False):
         print("as-built property-block loop of parse_sdf_contents (no bound on the line index): violated", res.violated)
         print(res.stdout[-1500:])
     recipes = make_recipes(ctx)
-    traces = pool_map(drive, recipes)
+    # a few hundred small molecules take ~1.5 s in-process; forking 16 workers costs more than that
+    traces = pool_map(drive, recipes, procs=1 if ctx.quick else None)
     ctx.validate(TRACE, traces, batch=ctx.pick(None, 1500), timeout=1500)
     kinds = {}
     for t in traces:
